@@ -8,25 +8,17 @@ U='harness/private/bufpkg/bufcheck/bufcheckserver/internal/bufcheckserverutil/'
 S='harness/private/bufpkg/bufcheck/bufcheckserver/'
 M=[
  (H+'c03a.go','protoreflect.Uint64Kind, protoreflect.BoolKind:\n\t\treturn 100','protoreflect.Uint64Kind:\n\t\treturn 100','C03','C03-A.field-type-hierarchy','quick'),
- (H+'c03a.go','if pNames[i] == cNames[j] && pNums[i] == cNums[j] {','if pNames[i] == cNames[j] {','C03','C03-A.enum-type-change','quick'),
  (H+'c03b.go','if wireOnly {\n\t\t\treturn 3\n\t\t}','if wireOnly {\n\t\t\treturn 4\n\t\t}','C03','C03-B.cardinality','quick'),
  (H+'c03c.go','changed := prev.name != cur.name\n\tif isExt {\n\t\tchanged = prev.full != cur.full\n\t}','changed := prev.name != cur.name\n\tif isExt {\n\t\tchanged = prev.name != cur.name\n\t}','C03','C03-C.field-name','quick'),
  (H+'c03c.go','if !isExt && prev.jsonName != cur.jsonName {','if prev.jsonName != cur.jsonName {','C03','C03-C.field-json-name','quick'),
- (H+'c03c.go','f.oneof = &vbOneof{name: vbNondetName(nl), synthetic: true}\n\t\t\treturn f, false, ""','f.oneof = &vbOneof{name: vbNondetName(nl), synthetic: true}\n\t\t\treturn f, true, f.oneof.name','C03','C03-C.field-oneof','quick'),
  (H+'c03c.go','return t == 3 || t == 4 || t == 6 || t == 16 || t == 18','return t == 3 || t == 4 || t == 6 || t == 16','C03','C03-C.field-jstype','quick'),
  (H+'c03c.go','if !refBrkNameIn(prevNames[i], curNames) {\n\t\t\trenamed = true','if i == 0 && !refBrkNameIn(prevNames[i], curNames) {\n\t\t\trenamed = true','C03','C03-C.enum-value-same-name','quick'),
  (H+'c03d.go','if !refBrkInRanges(nums[i], ranges) {\n\t\t\twantNum++\n\t\t}\n\t\tif !refBrkNameIn(names[i], resNames) {','if !refBrkInRanges(nums[i]+1, ranges) {\n\t\t\twantNum++\n\t\t}\n\t\tif !refBrkNameIn(names[i], resNames) {','C03','C03-D.field-delete','quick'),
  (H+'c03d.go','if !refBrkNameIn(names[j], resNames) {\n\t\t\t\t\tallNamesReserved = false','if j == i && !refBrkNameIn(names[j], resNames) {\n\t\t\t\t\tallNamesReserved = false','C03','C03-D.enum-value-delete','quick'),
- (H+'c03e.go','if msgs[j].nested == name[:i] {','if i > 2 && msgs[j].nested == name[:i] {','C03','C03-E.file-elements','quick'),
  (H+'c03e.go','if !refBrkNameIn(prevNames[i], curNames) && !synthetic[i] {','if !refBrkNameIn(prevNames[i], curNames) {','C03','C03-E.oneof-rpc','quick'),
  (H+'c03e.go','if !refBrkNameIn(prevPaths[i], curPaths) {\n\t\t\twant++','if i == 0 && !refBrkNameIn(prevPaths[i], curPaths) {\n\t\t\twant++','C03','C03-E.file-no-delete','quick'),
- (H+'c03e_pkg.go','if still || !pkgSurvives {','if still {','C03','C03-E.package-enum-no-delete','quick'),
- (H+'c03e_pkg.go','if still || !pkgSurvives {','if still {','C03','C03-E.package-service-no-delete','quick'),
- (H+'c03e_pkg.go','case sameFile != nil:\n\t\t\tverifAssert(rw.vbHasFull("", nil, sameFile.path, p.el)','case sameFile != nil:\n\t\t\tverifAssert(rw.vbHasFull("", nil, "", p.el)','C03','C03-E.package-message-no-delete','quick'),
- (H+'c03e_pkg.go','inScope := m.file == sameFile','inScope := m.file != sameFile','C03','C03-E.package-extension-no-delete','quick'),
  (H+'c03e_pkg.go','if refBrkNameIn(prevPkgs[i], curPkgs) || refBrkNameIn(prevPkgs[i], prevPkgs[:i]) {','if refBrkNameIn(prevPkgs[i], curPkgs) {','C03','C03-E.package-no-delete','quick'),
  (H+'c03f.go','if rs[i][0] <= x && x <= rs[i][1] {','if rs[i][0] <= x && x < rs[i][1] {','C03','C03-F.collapse-ranges,C03-F.find-missing,C03-F.tag-range-kernel,C03-F.reserved-range-handlers','quick'),
- (H+'c03g.go','tags := []string{"input", "output", "method", "method", "idempotency"}','tags := []string{"output", "input", "method", "method", "idempotency"}','C03','C03-G.rpc','quick'),
  (H+'c03g.go','if ps == 1 {\n\t\t\tps = 2 // unspecified is proto2\n\t\t}','','C03','C03-G.file-options','quick'),
  (H+'c03g.go','if prevReq[i] && !curReq[i] {\n\t\t\twant++','if prevReq[i] && !curHas[i] {\n\t\t\twant++','C03','C03-G.message-rules','quick'),
  (U+'c03h.go','if prevKeys[i] == curKeys[j] {\n\t\t\t\twant = append(want, vbuCall{curEls[j], prevEls[i]})\n\t\t\t}\n\t\t}\n\t}\n\tif len(want) > 0 {\n\t\tverifCover("some pair matches")','if i == j && prevKeys[i] == curKeys[j] {\n\t\t\t\twant = append(want, vbuCall{curEls[j], prevEls[i]})\n\t\t\t}\n\t\t}\n\t}\n\tif len(want) > 0 {\n\t\tverifCover("some pair matches")','C03','C03-H.named-pairs','quick'),
@@ -34,22 +26,25 @@ M=[
  (U+'c03h.go','if prevNames[i] == curNames[j] {','if prevNames[i] != curNames[j] {','C03','C03-H.enum-value-method-pairs','quick'),
  (S+'c04d.go','{"PACKAGE_EXTENSION_NO_DELETE", "PACKAGE", 2}','{"PACKAGE_EXTENSION_NO_DELETE", "PACKAGE", 1}','C03','C03-I.rule-tables','quick'),
  (H+'c04a.go','prev, cur := vbBuildSchema(a, false), vbBuildSchema(a, false)','prev, cur := vbBuildSchema(a, false), vbBuildSchema(a, false)\n\tcur.method.sStream = !cur.method.sStream','C04','C04-A.identity','quick'),
- (H+'c04a.go','verifAssume(a.addVName != a.vName)','','C04','C04-B.additive','quick'),
  (H+'c04b.go','verifAssume(w >= curR[0].e)','verifAssume(w <= curR[0].e)\n\t\tverifAssume(w >= curR[0].s)','C04','C04-B.ranges-additive','quick'),
  (H+'c04c.go','verifAssert(handleBreakingFileSamePackage(fileRW, req, c, p) == nil, "FILE_SAME_PACKAGE returns no error")','','C04','C04-C.package-implies-file-package,C04-C.package-implies-file-enum','quick'),
  (S+'c04d.go','"FIELD_WIRE_JSON_COMPATIBLE_CARDINALITY":      {{"FIELD_SAME_CARDINALITY"}},','','C04','C04-D.category-tables','quick'),
-
  (H+'c03a.go','if pNames[i] == cNames[j] && pNums[i] == cNums[j] {','if pNames[i] == cNames[j] && (pNums[i] == cNums[j] || true) {','C03','C03-A.enum-type-change','quick'),
  (H+'c03e_pkg.go','if still || !pkgSurvives {','if still || (!pkgSurvives && false) {','C03','C03-E.package-enum-no-delete,C03-E.package-service-no-delete','quick'),
- (H+'c03e_pkg.go','inScope := m.file == sameFile','inScope := m.file != sameFile','C03','C03-E.package-extension-no-delete','thorough'),
  (H+'c04a.go','verifAssume(a.addFClass != 3) // not required','','C04','C04-B.additive','quick'),
-
- (H+'c03g.go','want := "enum"\n\t\tif cur.hasEnumTypeLoc {','want := "enum"\n\t\tif prev.hasEnumTypeLoc {','C03','C03-G.enum-same-type','quick'),
  (S+'c03i_spec.go','{"rpc request type", func(s *vbsSchema) { s.method.in = "i2" }, []string{"RPC_SAME_REQUEST_TYPE"}},','{"rpc request type", func(s *vbsSchema) { s.method.in = "i2" }, []string{"RPC_SAME_RESPONSE_TYPE"}},','C03','C03-I.spec-scenarios','quick'),
- (S+'c03i_spec.go','{"int32 -> int64", func(s *vbsSchema) {\n\t\ts.f.fd.kind, s.f.typ = protoreflect.Int64Kind, descriptorpb.FieldDescriptorProto_TYPE_INT64\n\t}, []string{"FIELD_SAME_TYPE", "FIELD_WIRE_JSON_COMPATIBLE_TYPE"}},','{"int32 -> int64", func(s *vbsSchema) {\n\t\ts.f.fd.kind, s.f.typ = protoreflect.Int64Kind, descriptorpb.FieldDescriptorProto_TYPE_INT64\n\t}, []string{"FIELD_SAME_TYPE"}},','C03','C03-I.spec-scenarios','quick'),
  (S+'c03i_spec.go','{"close enum", func(s *vbsSchema) { s.enum.closed = true }, []string{"ENUM_SAME_TYPE"}},','','C03','C03-I.scenario-coverage','quick'),
  (H+'c03j.go','return false, uint64(uint32(x))','return false, uint64(uint32(x)) &^ 1','C03','C03-J.integer-defaults','quick'),
  (H+'c03c.go','f := &vField{number: 1, name: "f", proto3Optional: verifNondetBool()}\n\t\tswitch verifNondetChoice(3) {\n\t\tcase 0:\n\t\t\treturn f, false, ""','f := &vField{number: 1, name: "f", proto3Optional: verifNondetBool()}\n\t\tswitch verifNondetChoice(3) {\n\t\tcase 0:\n\t\t\treturn f, f.proto3Optional, ""','C03','C03-C.field-oneof','quick'),
+ (H+'c03e.go','\t\twant++\n\t\tverifCover("an element was deleted")','\t\tif i == 0 {\n\t\t\twant++\n\t\t}\n\t\tverifCover("an element was deleted")','C03','C03-E.file-elements','quick'),
+ (H+'c03e.go','verifAssert(rw.n >= want && rw.vbInFile("a.proto"), "every deleted element is reported in the current file")','verifAssert(rw.n >= want && rw.vbInFile("b.proto"), "every deleted element is reported in the current file")','C03','C03-E.file-elements','quick'),
+ (H+'c03e_pkg.go','if still || !pkgSurvives {','if still || (!pkgSurvives && false) {','C03','C03-E.package-message-no-delete','quick'),
+ (H+'c03e_pkg.go','verifAssert(rw.vbInFile(sameFile.path), "element deleted from a surviving file is reported in that file")','verifAssert(rw.vbInFile(sameFile.path+"x"), "element deleted from a surviving file is reported in that file")','C03','C03-E.package-extension-no-delete','quick'),
+ (H+'c03g.go','changed := []bool{prev.in != cur.in, prev.out != cur.out,','changed := []bool{prev.out != cur.out, prev.in != cur.in,','C03','C03-G.rpc','quick'),
+ (H+'c03g.go','if prev.closed != cur.closed {\n\t\tverifCover("enum changed between open and closed")','if prev.closed == cur.closed {\n\t\tverifCover("enum changed between open and closed")','C03','C03-G.enum-same-type','quick'),
+ (S+'c03i_spec.go','}, []string{"FIELD_SAME_TYPE", "FIELD_WIRE_JSON_COMPATIBLE_TYPE"}},','}, []string{"FIELD_SAME_TYPE", "FIELD_WIRE_COMPATIBLE_TYPE"}},','C03','C03-I.spec-scenarios','quick'),
+ (S+'c03i_spec.go','\t\ts.q.oneof.name = "X_q"\n','\t\ts.q.oneof.name = "X_q"\n\t\ts.q.jsonName = "qq"\n','C03','C03-I.spec-scenarios','quick'),
+ (U+'c03h.go','if prevNames[i] == curNames[j] {','if prevNames[i] == curNames[j] && i == 0 {','C03','C03-H.enum-value-method-pairs','quick'),
 ]
 def reset():
     if os.path.exists(ROOT): shutil.rmtree(ROOT)
